@@ -839,6 +839,46 @@ enum P {
     Ptr(usize, bool),
     Lit(u64, bool),
 }
+/// canonical row numbering of a node table: rows are renumbered in the order in which a depth-first
+/// walk from the root completes them (pointers of a row visited in the row's own order); rows the
+/// root does not reach keep their relative order at the end.  The property fixes what a table
+/// denotes and "children before parents", not the order of rows: the correspondence compares
+/// tables modulo this renumbering.
+fn canon_numbering(rows: &[Vec<P>], root: &P) -> Vec<usize> {
+    let n = rows.len();
+    let mut num: Vec<Option<usize>> = vec![None; n];
+    let mut next = 0usize;
+    fn visit(p: &P, rows: &[Vec<P>], num: &mut Vec<Option<usize>>, next: &mut usize, depth: usize) {
+        if let P::Ptr(j, _) = p {
+            if *j < rows.len() && num[*j].is_none() && depth < 100000 {
+                num[*j] = Some(usize::MAX); // in progress (tables are acyclic; guards malformed ones)
+                for q in &rows[*j] {
+                    visit(q, rows, num, next, depth + 1);
+                }
+                num[*j] = Some(*next);
+                *next += 1;
+            }
+        }
+    }
+    visit(root, rows, &mut num, &mut next, 0);
+    for j in 0..n {
+        if num[j].is_none() {
+            num[j] = Some(next);
+            next += 1;
+        }
+    }
+    num.into_iter().map(|x| x.unwrap()).collect()
+}
+fn renum(p: &P, num: &[usize]) -> P {
+    match p {
+        P::Ptr(j, c) if *j < num.len() => P::Ptr(num[*j], *c),
+        P::Ptr(j, c) => P::Ptr(*j, *c),
+        P::T => P::T,
+        P::F => P::F,
+        P::Lit(l, b) => P::Lit(*l, *b),
+    }
+}
+
 fn read_ptr(v: &Value) -> P {
     if let Some(s) = v.as_str() {
         return match s { "True" => P::T, "False" => P::F, _ => panic!("bad pointer {s}") };
@@ -961,8 +1001,12 @@ fn run_b(case: &str, st: &mut Stats) -> Outcome {
         if rows.len() == 1 { st.bump("b_single_node") }
         if rows.iter().any(|(_, l, h)| matches!(l, P::Ptr(_, true)) || matches!(h, P::Ptr(_, true))) { st.bump("b_complemented_edge") }
         maxrows = maxrows.max(rows.len());
-        let rs: Vec<String> = rows.iter().map(|(v, l, h)| format!("{v},{},{}", show_ptr(l), show_ptr(h))).collect();
-        out.push(format!("{};{}", rs.join(" "), show_ptr(&root)));
+        let flat: Vec<Vec<P>> = rows.iter().map(|(_, l, h)| vec![renum(l, &[]), renum(h, &[])]).collect();
+        let num = canon_numbering(&flat, &root);
+        let mut order: Vec<usize> = (0..rows.len()).collect();
+        order.sort_by_key(|j| num[*j]);
+        let rs: Vec<String> = order.iter().map(|j| { let (v, l, h) = &rows[*j]; format!("{v},{},{}", show_ptr(&renum(l, &num)), show_ptr(&renum(h, &num))) }).collect();
+        out.push(format!("{};{}", rs.join(" "), show_ptr(&renum(&root, &num))));
     }
     // diagrams from other producers of BddPtr (oracle only): top-down decision-DNNFs of a CNF
     // derived from the program (both stores; their nodes are not in ROBDD normal form: (v, T, F),
@@ -1191,8 +1235,12 @@ fn run_x(case: &str, st: &mut Stats) -> Outcome {
         if matches!(root, P::T | P::F) { st.bump("x_constant_root") }
         if matches!(p, SddPtr::Reg(_) | SddPtr::Compl(_)) { general = true }
         maxrows = maxrows.max(rows.len());
-        let rs: Vec<String> = rows.iter().map(|r| r.iter().map(|(a, b)| format!("{}:{}", show_ptr(a), show_ptr(b))).collect::<Vec<_>>().join("+")).collect();
-        out.push(format!("{};{}", rs.join(" "), show_ptr(&root)));
+        let flat: Vec<Vec<P>> = rows.iter().map(|r| r.iter().flat_map(|(a, b)| [renum(a, &[]), renum(b, &[])]).collect()).collect();
+        let num = canon_numbering(&flat, &root);
+        let mut order: Vec<usize> = (0..rows.len()).collect();
+        order.sort_by_key(|j| num[*j]);
+        let rs: Vec<String> = order.iter().map(|j| rows[*j].iter().map(|(a, b)| format!("{}:{}", show_ptr(&renum(a, &num)), show_ptr(&renum(b, &num)))).collect::<Vec<_>>().join("+")).collect();
+        out.push(format!("{};{}", rs.join(" "), show_ptr(&renum(&root, &num))));
     }
     if general { st.bump("x_cases_with_general_nodes") }
     st.bump(&format!("x_maxrows={}", if maxrows < 2 { "0-1" } else if maxrows < 5 { "2-4" } else { "5+" }));
